@@ -46,6 +46,12 @@ func init() {
 					script[i].Gap = g.PickInt(0, 1, 2)
 				}
 			}
+			if mode == "sync" && g.Bool(0.3) {
+				// the subscribe function panics somewhere in (or after) its script: before a terminal the
+				// library turns that into the Error notification, after one it is a late notification
+				at := g.Range(0, len(script))
+				script = append(script[:at:at], append([]Step{{K: "P", V: 7}}, script[at:]...)...)
+			}
 			sc.Sources = []SrcSpec{{Mode: mode, Ctor: ctor, Script: script}}
 			n := g.PickInt(0, 1, 1, 1, 2, 3, 4, 5)
 			sc.Sub = "chain"
